@@ -180,7 +180,15 @@ func (e *C18) Run(ctx *core.Ctx, idx int) {
 		mk := func(d c18Setting) *v1.ExtendedDaemonsetSetting {
 			st := &v1.ExtendedDaemonsetSetting{ObjectMeta: metav1.ObjectMeta{Name: d.Name, Namespace: d.NS, CreationTimestamp: metav1.NewTime(kit.T0.Add(d.Created))}}
 			if d.HasRef {
+				// the same daemonset, spelled as users do (the kind string of the README, the real kind,
+				// with or without apiVersion): the replica-set sync matches on the name only
 				st.Spec.Reference = &autoscalingv1.CrossVersionObjectReference{Kind: "ExtendedDaemonset", Name: "foo"}
+				switch int(d.Name[len(d.Name)-1]) % 3 {
+				case 1:
+					st.Spec.Reference = &autoscalingv1.CrossVersionObjectReference{APIVersion: "datadoghq.com/v1alpha1", Kind: "ExtendedDaemonSet", Name: "foo"}
+				case 2:
+					st.Spec.Reference = &autoscalingv1.CrossVersionObjectReference{Kind: "ExtendedDaemonSet", Name: "foo"}
+				}
 			}
 			st.Spec.NodeSelector = d.Sel
 			st.Spec.Containers = []v1.ExtendedDaemonsetSettingContainerSpec{{Name: "main", Resources: corev1.ResourceRequirements{Requests: corev1.ResourceList{"cpu": resource.MustParse(d.CPU)}}}}
